@@ -255,14 +255,19 @@ func (e *Engine) lenBound(t *Term, what string) int {
 		return int(um)
 	}
 	// ask the solver for an upper bound under the current path condition
-	if b, ok := e.boundCache[t.id]; ok {
+	ck := [2]int{t.id, 0}
+	if e.cur != nil && len(e.cur.pc) > 0 {
+		// the bound is only valid under the path condition it was proved for
+		ck[1] = len(e.cur.pc)<<20 ^ e.cur.pc[len(e.cur.pc)-1].id
+	}
+	if b, ok := e.boundCache[ck]; ok {
 		return b
 	}
 	if e.cur != nil {
 		for _, k := range []uint64{32, 128, 512, 2048, 1 << 14, 1 << 16} {
 			sat, _, certain := e.feasible(e.cur, e.ts.Ult(e.ts.Const(t.w, k), t))
 			if !sat && certain {
-				e.boundCache[t.id] = int(k)
+				e.boundCache[ck] = int(k)
 				return int(k)
 			}
 		}
@@ -524,7 +529,7 @@ func (e *Engine) convert(st *State, v Value, from, to types.Type, in ssa.Instruc
 				e.copyCells(st, o, e.c64(0), s.obj, s.off, s.len, n)
 				return StrV{obj: o, off: e.c64(0), len: s.len}
 			}
-			panic(encErr("string([]rune) not supported"))
+			return e.runesToString(st, s)
 		}
 		if _, ok := tu.(*types.Slice); ok {
 			return v
